@@ -130,7 +130,8 @@ impl Engine for FlightEngine {
         let n_keys = rng.weighted(&[5, 3, 1]) as u8 + 1;
         // arrival pattern: all at once / spread around the task duration / back to back
         let pattern = rng.below(4);
-        let base_task = *rng.pick(&[0u64, 1, 10, 100]);
+        // (now and then flights that last minutes or an hour of simulated time: any patience a waiter might have runs out)
+        let base_task = *rng.pick(&[0u64, 1, 10, 100, 0, 1, 10, 100, 130_000, 4_000_000]);
         let mut callers = Vec::new();
         for i in 0..n {
             let task_ms = match rng.below(4) {
